@@ -148,6 +148,9 @@ func checkDistribute(res *fres, shards []cluster.VerifShardInfo, sizes []int, ma
 		load[s.Id] = sh{s.Id, s.Size, s.PointCount}
 	}
 	for _, r := range rs {
+		if r.b == r.a {
+			continue // nothing added to this shard
+		}
 		l := load[r.id]
 		for i := r.a; i < r.b; i++ {
 			l.size += int64(sizes[i])
@@ -202,6 +205,10 @@ func funcWorker(j fjob) fres {
 			st = append(st, s)
 		}
 	}
+	// shards that are already strictly over a limit (a shard's reported size is its
+	// file size, which grows in pages and overshoots; a count limit may have been
+	// lowered): they take nothing more
+	st = append(st, cluster.VerifShardInfo{PointCount: maxCount + 1, Size: 0}, cluster.VerifShardInfo{PointCount: 1, Size: maxSize + 1}, cluster.VerifShardInfo{PointCount: 1, Size: maxSize + 4096})
 	var rec func(prefix []cluster.VerifShardInfo, n int)
 	run := func(shards []cluster.VerifShardInfo) {
 		for i := range shards {
@@ -552,7 +559,7 @@ func worker(raw json.RawMessage) (json.RawMessage, error) {
 }
 
 func master(cfg *harness.Config, rep *harness.Report) {
-	rep.Rule = "(a) every argument combination of the real distributePoints: 0..3 existing shards with point counts from {0,1,max-1,max} x sizes from {0,max-p,max}, batches of 0..6 points of size p / 3p / alternating, maxShardPointCount in {1,2,3}, maxShardSize in {3p+1,4p,100p}, createShard failing at its 1st/2nd call or never; oracle: ranges contiguous, disjoint, covering the batch, no shard over its count or size limit, fresh shards requested exactly for the overflow, equal to the greedy in-order fill. (b) breadth-first search (de-duplicated on shard fill levels) over request histories on a real node: insert 1/2/3(with one stored id)/5, create collection c1/c2/c3, delete 1 point, with MaxShardPointCount in {2,3} and point quota in {4,5}, collection quota 2: totals, per-shard maxima, quota refusals without side effects, every stored point found exactly once"
+	rep.Rule = "(a) every argument combination of the real distributePoints: 0..3 existing shards with point counts from {0,1,max-1,max} x sizes from {0,max-p,max} plus shards already over a limit (count max+1; size max+1, max+4096), batches of 0..6 points of size p / 3p / alternating, maxShardPointCount in {1,2,3}, maxShardSize in {3p+1,4p,100p}, createShard failing at its 1st/2nd call or never; oracle: ranges contiguous, disjoint, covering the batch, no shard over its count or size limit, fresh shards requested exactly for the overflow, equal to the greedy in-order fill. (b) breadth-first search (de-duplicated on shard fill levels) over request histories on a real node: insert 1/2/3(with one stored id)/5, create collection c1/c2/c3, delete 1 point, with MaxShardPointCount in {2,3} and point quota in {4,5}, collection quota 2: totals, per-shard maxima, quota refusals without side effects, every stored point found exactly once"
 	rep.Assumptions = []string{"a single point always fits into an empty shard (the property's precondition)", "one server (placement does not depend on routing)"}
 	p := pool.New(pool.Options{CPUsPerWorker: 2, JobTimeout: 120 * time.Second})
 	if cfg.Replay != "" {
